@@ -32,10 +32,38 @@ def glue_case(t, r):
         d = concepts.Definition(dm.names_of(objs), dm.names_of(props), [tuple(x) for x in bools])
         c = concepts.Context(*d)
         d2 = c.definition()
+        import fractions
+        import zlib
+        n_true = sum(1 for row in bools for x in row if x)
+        size = len(objs) * len(props)
+        want_ratio = fractions.Fraction(n_true, size)
+        text = c.tostring()
+
+        def same_ratio(x):
+            return (isinstance(x, fractions.Fraction) and (x.numerator, x.denominator) == (want_ratio.numerator, want_ratio.denominator))
+
+        def crc(enc):
+            return format(zlib.crc32(text.encode(enc)) & 0xffffffff, 'x')
+
+        def crc_agree(enc):
+            try:
+                want = crc(enc)
+            except UnicodeEncodeError:
+                for x in (c, d):
+                    try:
+                        x.crc32(encoding=enc)
+                        return False
+                    except UnicodeEncodeError:
+                        pass
+                return True
+            return c.crc32(encoding=enc) == d.crc32(encoding=enc) == want
         ok = (d2 == d and d == d2 and (d2.objects, d2.properties, d2.bools) == (d.objects, d.properties, d.bools)
-              and c.shape == d.shape and c.fill_ratio == d.fill_ratio and c.tostring() == d.tostring() and str(d) == d.tostring()
-              and c.crc32() == d.crc32() and concepts.Context(*d2) == c and not (concepts.Context(*d2) != c)
-              and all(c.crc32(encoding=enc) == d.crc32(encoding=enc) for enc in ('utf-16', 'utf-8', 'latin-1', 'utf-16'))
+              and tuple(c.shape) == tuple(d.shape) == (len(objs), len(props)) and c.shape.size == d.shape.size == size
+              and c.shape.objects == len(objs) and d.shape.properties == len(props)
+              and same_ratio(c.fill_ratio) and same_ratio(d.fill_ratio)
+              and text == d.tostring() and str(d) == text and str(c).split('\n', 1)[1] == c.tostring(indent=4)
+              and c.crc32() == d.crc32() == crc('utf-8') and concepts.Context(*d2) == c and not (concepts.Context(*d2) != c)
+              and all(crc_agree(enc) for enc in ('utf-16', 'utf-8', 'latin-1', 'utf-16'))
               and repr(c).count(c.crc32()) == 1)
         # equality of contexts is equality of triples
         e = d.copy()
@@ -78,6 +106,14 @@ def cases(tier, seed):
     for t in tables:
         if t[0] and t[1]:
             out.append(glue_case(t, r))
+    # shapes whose size is not a power of two (fill ratios with odd denominators), every fill
+    for ko in (1, 2, 3):
+        for kp in (1, 2, 3):
+            if ko * kp in (1, 2, 4):
+                continue
+            for bits in range(1 << (ko * kp)):
+                bools = [[bool(bits >> (i * kp + j) & 1) for j in range(kp)] for i in range(ko)]
+                out.append(glue_case((OBJS3[:ko], PROPS3[:kp], bools), r))
     return out
 
 
